@@ -1,7 +1,7 @@
 // @unit c15_settings property=C15 attach=verif-c15/src/lib.rs
 // @h c15_settings_crate_plain tier=native
-// @h c15_settings_with_crate_args_plain tier=both bounded=enumerated-literal-arguments
-// @h c15_settings_with_crate_args_renamed tier=both bounded=enumerated-literal-arguments bounded=enumerated-literal-arguments
+// @h c15_settings_with_crate_args_plain tier=both replay=none bounded=enumerated-literal-arguments
+// @h c15_settings_with_crate_args_renamed tier=both replay=none bounded=enumerated-literal-arguments
 // @h c15_settings_crate_renamed tier=native bounded=enumerated-literal-arguments
 // @h c15_settings_flags tier=both bounded=enumerated-literal-arguments
 // @canary canary_c15_settings
